@@ -570,6 +570,15 @@ func genC17(t *rapid.T) C17Case {
 				c.Requests = append(c.Requests, fmt.Sprintf("/view?file=%%SUB%%/%s/nope%d.wsp&retention=-1&from=%s&until=%s&now=%s", f.Dir, i, civilString(0), civilString(now), civilString(now)))
 			}
 		}
+		if rapid.IntRange(0, 4).Draw(t, "bigBurst") == 0 {
+			// 70-220 valid requests for ONE file in flight together: they queue on the file's lock, so far more
+			// than a few dozen are inside the server at once; each must still get the sequential answer (round 10, C17t)
+			f := c.Files[0]
+			nb := rapid.IntRange(70, 220).Draw(t, "bigBurstCount")
+			for i := 0; i < nb; i++ {
+				c.Requests = append(c.Requests, fmt.Sprintf("/view?file=%%SUB%%/%s/%s&retention=-1&from=%s&until=%s&now=%s", f.Dir, f.Name, civilString(0), civilString(now), civilString(now)))
+			}
+		}
 		if rapid.IntRange(0, 4).Draw(t, "invalidBurst") == 0 {
 			// requests the server must refuse, each for its own reason (the answer names it), in flight together
 			f := c.Files[0]
@@ -677,7 +686,7 @@ func TestC17(t *testing.T) {
 	defer cleanupServerRoot()
 	RunProperty(t, Property[C17Case]{
 		ID:          "C17",
-		Rule:        "built with the Go race detector (halt_on_error: a data race ends the process and is reported as the violation). Three generated case kinds: handle - one handle on a multi-page file, 2-16 goroutines released together, each issuing a generated FetchFromArchive (any archive / window) or raw dump; sum - the sum command over 2-40 files (its per-file reads run concurrently) at a controlled clock; http - 2-24 parallel raw GETs of /view, /view-raw, /sum, /items, /files (explicit now in the query, existing and missing files) against the in-process server. Oracle: zero race reports, and every concurrent result equals the same call executed alone afterwards (fresh handle / fresh request; sum vs. files summed one at a time; byte-equal status+headers+body for HTTP). The C17 server is started with a base directory relative to the working directory; a quarter of the http cases use clients that shut down their sending side after the request (answer compared with an ordinary client's), a quarter keep listings over 200-900 files in flight. Non-trivial: >=2 calls on the same archive / >=2 files / >=2 requests in flight. Distinct = hash of the case.",
+		Rule:        "built with the Go race detector (halt_on_error: a data race ends the process and is reported as the violation). Three generated case kinds: handle - one handle on a multi-page file, 2-16 goroutines released together, each issuing a generated FetchFromArchive (any archive / window) or raw dump; sum - the sum command over 2-40 files (its per-file reads run concurrently) at a controlled clock; http - 2-24 parallel raw GETs of /view, /view-raw, /sum, /items, /files (explicit now in the query, existing and missing files) against the in-process server. Oracle: zero race reports, and every concurrent result equals the same call executed alone afterwards (fresh handle / fresh request; sum vs. files summed one at a time; byte-equal status+headers+body for HTTP). The C17 server is started with a base directory relative to the working directory; a quarter of the http cases use clients that shut down their sending side after the request (answer compared with an ordinary client's), a quarter keep listings over 200-900 files in flight, a fifth send 70-220 valid requests for one file together (they queue on its lock inside the server). Non-trivial: >=2 calls on the same archive / >=2 files / >=2 requests in flight. Distinct = hash of the case.",
 		Assumptions: []string{"OS scheduling is not controlled; the race detector reports unsynchronized conflicting accesses that actually executed", "the replay of a race is schedule dependent"},
 		Gen:         genC17,
 		Run:         runC17,
